@@ -28,13 +28,20 @@ def shards(tier, seed):
     return [{"name": f"mstep-{k}", "k": k, "n": 5 if q else 70, "budget_s": 150 if q else 1500} for k in range(16)]
 
 
-def fit_with_probe(model, ds, settings_kw, on_step=None, before_suffstats=None):
-    """What BaseModel.fit does, but with the probe installed on the algorithm instance."""
+def fit_with_probe(model, ds, settings_kw, on_step=None, before_suffstats=None, reconfigure=None):
+    """What BaseModel.fit does, but with the probe installed on the algorithm instance.
+    `reconfigure`: parameters given to the documented ``algorithm.load_parameters`` between construction and run."""
     from leaspy.algo import AlgorithmSettings, algorithm_factory
     from vf.probes.algo import MStepProbe
 
     settings = AlgorithmSettings("mcmc_saem", progress_bar=False, **settings_kw)
     algo = algorithm_factory(settings)
+    if reconfigure:
+        import contextlib as _c
+        import io as _io
+
+        with _c.redirect_stdout(_io.StringIO()):
+            algo.load_parameters(dict(reconfigure))
     if not model.is_initialized:
         model.initialize(ds)
     probe = MStepProbe(algo, model, on_step=on_step, before_suffstats=before_suffstats)
